@@ -1,4 +1,4 @@
-// GENERATED on every run by vlib/extract.py from /tmp/seedcheck-13127 -- do not edit
+// GENERATED on every run by vlib/extract.py from /repo -- do not edit
 #![allow(unused_imports, unused_variables, unused_mut, dead_code, unused_parens, unused_braces, non_snake_case)]
 use vstd::prelude::*;
 use core::cmp::Ordering;
@@ -543,15 +543,10 @@ impl core::ops::Deref for QualifierKey {
         &self.0
     }
 }
-// ---- unit theory.fmt  <= (contracts):0 ----
-// ---- R9: stub of fmt::Formatter (ghost output) and of the escape sets; the canonical shape written from C03 ----
-#[verifier::external_body]
-pub struct Formatter { _p: core::marker::PhantomData<u8> }
-impl Formatter { pub uninterp spec fn out(&self) -> Seq<char>; }
-pub struct FmtError;
-pub type FmtResult = Result<(), FmtError>;
-
-/// the four escape sets of format.rs (their per-byte content is proved by Kani on the real constants)
+// ---- unit theory.enc  <= (contracts):0 ----
+// ---- percent-encoding as a specification function (C03): defined per character from the documented table ----
+// What is ASSUMED about the dependency: `utf8_percent_encode(s, SET)` produces `enc(SET, s)` (its per-byte table is proved by
+// Kani on the real constants; that it works char by char is replayed by A), and `dec(enc(set, s)) == Some(s)` (A).
 #[derive(Clone, Copy)]
 pub enum SetId { Path, Segment, Query, Fragment }
 pub const PURL_PATH: SetId = SetId::Path;
@@ -559,8 +554,37 @@ pub const PURL_PATH_SEGMENT: SetId = SetId::Segment;
 pub const PURL_QUERY: SetId = SetId::Query;
 pub const PURL_FRAGMENT: SetId = SetId::Fragment;
 
-/// `utf8_percent_encode(s, SET).to_string()` (dependency; its table is the Kani-proved one, applied byte-wise)
-pub uninterp spec fn enc(set: SetId, s: Seq<char>) -> Seq<char>;
+/// C03's table: "every byte that is a control character, DEL, space, non-ASCII, '"', '<', '>', '%', '@', '?' or '#' - and
+/// additionally '`', '{', '}' in namespace, name and version, '/' in the name, '+' and '&' in qualifier values, '`' in the subpath"
+pub open spec fn escaped_c(set: SetId, c: char) -> bool {
+    (c as u32) < 0x20 || (c as u32) >= 0x7f || c == ' ' || c == '"' || c == '<' || c == '>' || c == '%' || c == '@' || c == '?' || c == '#'
+    || match set {
+        SetId::Path => c == '`' || c == '{' || c == '}',
+        SetId::Segment => c == '`' || c == '{' || c == '}' || c == '/',
+        SetId::Query => c == '+' || c == '&',
+        SetId::Fragment => c == '`',
+    }
+}
+/// `%XX…` for the UTF-8 bytes of `c` (uninterpreted; only its alphabet is used)
+pub uninterp spec fn pct(c: char) -> Seq<char>;
+pub open spec fn pct_alphabet(x: char) -> bool { x == '%' || ('0' <= x && x <= '9') || ('A' <= x && x <= 'F') }
+/// ASSUMED (definition of percent-encoding): non-empty, made of '%' and upper-case hex digits
+#[verifier::external_body]
+pub proof fn axiom_pct(c: char)
+    ensures pct(c).len() > 0, forall|i: int| 0 <= i < pct(c).len() ==> pct_alphabet(#[trigger] pct(c)[i])
+{ }
+
+pub open spec fn enc_char(set: SetId, c: char) -> Seq<char> { if escaped_c(set, c) { pct(c) } else { seq![c] } }
+pub open spec fn enc(set: SetId, s: Seq<char>) -> Seq<char> decreases s.len()
+{ if s.len() == 0 { Seq::<char>::empty() } else { enc(set, s.drop_last()) + enc_char(set, s.last()) } }
+
+// ---- unit theory.fmt  <= (contracts):0 ----
+// ---- R9: stub of fmt::Formatter (ghost output) and of the escape sets; the canonical shape written from C03 ----
+#[verifier::external_body]
+pub struct Formatter { _p: core::marker::PhantomData<u8> }
+impl Formatter { pub uninterp spec fn out(&self) -> Seq<char>; }
+pub struct FmtError;
+pub type FmtResult = Result<(), FmtError>;
 
 #[verifier::external_body]
 pub fn x_write_str(f: &mut Formatter, s: &str) -> (r: FmtResult)
@@ -587,6 +611,9 @@ pub fn x_panic() -> !
     requires false
 { panic!() }
 
+
+// ---- unit theory.canon  <= (contracts):0 ----
+// ---- the canonical string as a specification function, written from C03 ----
 pub open spec fn opt_part(present: bool, s: Seq<char>) -> Seq<char> { if present { s } else { Seq::<char>::empty() } }
 
 /// [`?` + key=value pairs joined by `&`, in storage order]
